@@ -65,6 +65,9 @@ def stage_cfgs(pid, tier, rng):
                         gen.append(C(inputs=[[1, 2, 3]], **base))
                     if th:
                         mc.append(C(inputs=[[1, 2, 3, 4]], **base))
+                        if cap < 2:
+                            mc.append(C(inputs=[[1, 2, 3, 4, 5]], **dict(base, pred=[1, 3, 4])))
+                            gen.append(C(inputs=[[1, 2, 3, 4]], **base))
                 rnd.append(C(inputs=[[1, 2, 3, 4, 5]], n=rng.randint(0, 6), **base))
                 if cap == 1:
                     # repeated and unordered values (an element is not identified by its value)
@@ -290,7 +293,7 @@ def check(run, replay=None):
         tasks.append(lambda: stage_gen(run, [dict(c) for c in gen], d, grng, glimit, want_cancel=want))
         ucfgs = []
         if pid == "C08":
-            ucfgs = [C(kind="New", cap=cap, inputs=[list(range(1, (7 if th else 4) - (1 if cap == 3 else 0)))]) for cap in [0, 1, 2, 3]]
+            ucfgs = [C(kind="New", cap=cap, inputs=[list(range(1, (9 if th else 4) - (1 if cap == 3 else 0)))]) for cap in ([0, 1, 2, 3, 4] if th else [0, 1, 2, 3])]
             urng = random.Random(rng.random())
             tasks.append(lambda: model_mc(run, "Unbound", pid, ucfgs, d))
             tasks.append(lambda: queue_mc(run, th))
